@@ -76,15 +76,22 @@ class Layout(object):
             return lead + self.comment() + self.newline() + ' ' * rng.randint(0, 3)
         return ' '
 
-    def join(self, toks, trailer=True):
+    def join(self, toks, trailer=True, spans=None):
+        """spans: optional list receiving (start, end) of every token in the returned text"""
         out = []
         prev = None
+        pos = 0
         for t in toks:
             if prev is not None:
                 raw = (prev in RAW_KEYWORDS) or getattr(t, 'raw', False) or \
                     getattr(prev, 'raw', False)
-                out.append(self.sep(prev, t, raw))
+                s = self.sep(prev, t, raw)
+                out.append(s)
+                pos += len(s)
             out.append(t)
+            if spans is not None:
+                spans.append((pos, pos + len(t)))
+            pos += len(t)
             prev = t
         text = ''.join(out)
         if self.style == 'plain':
@@ -102,6 +109,8 @@ class Layout(object):
         if rng.random() < 0.3:
             lead = self.newline() + ((self.comment() + self.newline()) if self.comments else '')
             text = lead + text
+            if spans is not None:
+                spans[:] = [(a + len(lead), b + len(lead)) for a, b in spans]
         return text
 
 
